@@ -1,8 +1,47 @@
+// Package atomic mirrors the part of sync/atomic that CompressedStream.go (or a variant of it)
+// may use; every operation is a scheduling point of the controlled scheduler.
 package atomic
 
 import "github.com/flanglet/kanzi-go/v2/zverif/vcoop"
 
-func LoadInt32(p *int32) int32                       { return vcoop.LoadInt32(p) }
-func StoreInt32(p *int32, v int32)                   { vcoop.StoreInt32(p, v) }
-func CompareAndSwapInt32(p *int32, o, n int32) bool  { return vcoop.CompareAndSwapInt32(p, o, n) }
-func SwapInt32(p *int32, n int32) int32              { return vcoop.SwapInt32(p, n) }
+func LoadInt32(p *int32) int32                      { return vcoop.LoadInt32(p) }
+func StoreInt32(p *int32, v int32)                  { vcoop.StoreInt32(p, v) }
+func CompareAndSwapInt32(p *int32, o, n int32) bool { return vcoop.CompareAndSwapInt32(p, o, n) }
+func SwapInt32(p *int32, n int32) int32             { return vcoop.SwapInt32(p, n) }
+func AddInt32(p *int32, d int32) int32              { return vcoop.AddInt32(p, d) }
+func LoadInt64(p *int64) int64                      { return vcoop.LoadInt64(p) }
+func StoreInt64(p *int64, v int64)                  { vcoop.StoreInt64(p, v) }
+func CompareAndSwapInt64(p *int64, o, n int64) bool { return vcoop.CompareAndSwapInt64(p, o, n) }
+func SwapInt64(p *int64, n int64) int64             { return vcoop.SwapInt64(p, n) }
+func AddInt64(p *int64, d int64) int64              { return vcoop.AddInt64(p, d) }
+
+// Typed values (Go 1.19+ API)
+
+type Int32 struct{ v int32 }
+
+func (x *Int32) Load() int32                      { return vcoop.LoadInt32(&x.v) }
+func (x *Int32) Store(v int32)                    { vcoop.StoreInt32(&x.v, v) }
+func (x *Int32) Swap(n int32) int32               { return vcoop.SwapInt32(&x.v, n) }
+func (x *Int32) CompareAndSwap(o, n int32) bool   { return vcoop.CompareAndSwapInt32(&x.v, o, n) }
+func (x *Int32) Add(d int32) int32                { return vcoop.AddInt32(&x.v, d) }
+
+type Int64 struct{ v int64 }
+
+func (x *Int64) Load() int64                      { return vcoop.LoadInt64(&x.v) }
+func (x *Int64) Store(v int64)                    { vcoop.StoreInt64(&x.v, v) }
+func (x *Int64) Swap(n int64) int64               { return vcoop.SwapInt64(&x.v, n) }
+func (x *Int64) CompareAndSwap(o, n int64) bool   { return vcoop.CompareAndSwapInt64(&x.v, o, n) }
+func (x *Int64) Add(d int64) int64                { return vcoop.AddInt64(&x.v, d) }
+
+type Bool struct{ v int32 }
+
+func b2i(b bool) int32 {
+	if b {
+		return 1
+	}
+	return 0
+}
+func (x *Bool) Load() bool                    { return vcoop.LoadInt32(&x.v) != 0 }
+func (x *Bool) Store(v bool)                  { vcoop.StoreInt32(&x.v, b2i(v)) }
+func (x *Bool) Swap(n bool) bool              { return vcoop.SwapInt32(&x.v, b2i(n)) != 0 }
+func (x *Bool) CompareAndSwap(o, n bool) bool { return vcoop.CompareAndSwapInt32(&x.v, b2i(o), b2i(n)) }
